@@ -27,7 +27,7 @@ def extRT : Ext where
         | _ => .error { cls := .typeError, msg := "TypeError" }
       | none => .error { cls := .overflowError, msg := "OverflowError" }
   cond := fun _ _ _ => .ok true
-  hook := fun _ vals => .ok vals
+  hook := fun _ vals _ => .ok vals
   factory := fun _ => .list []
   pyStr := fun _ => "?"
   customTry := fun _ _ => .interrupt
